@@ -45,11 +45,12 @@ package datastore
 //@   props C03 C07
 //@   requires d != nil && d.config != nil && d.cacheClient != nil && inv_Transaction(transaction)
 //@   nosafety the claims are about effect ordering; panics end the run without further effects (no-panic is property C20)
+//@   cutloops
 //@   let n0 = ntrace()
 //@   let INTENDED = 2
 //@   let CONFIG = 0
 //@   ensures dryrun_changes_nothing [C03]: dryRun ==> ntrace() == n0
-//@   internal rejected_changes_nothing [C03]: called(HasErrors) && callres(HasErrors) ==> ntrace() == n0 && r1 == nil && r0 != nil
+//@   internal rejected_changes_nothing [C03]: called(Validate) && anyErrors(validationResult) ==> ntrace() == n0
 //@   internal failed_apply_persists_nothing [C07]: called(applyIntent) && callres(applyIntent, 0, 1) != nil ==> r1 != nil && ntrace() <= n0 + 1
 //@   ensures device_first [C03 C07]: ntrace() > n0 ==> isev(emitted(n0), SbiSet)
 //@   ensures device_written_once [C03 C07]: forall(i, n0 + 1, ntrace(), !isev(emitted(i), SbiSet))
@@ -66,16 +67,54 @@ package datastore
 //@            exists(i, n0 + 1, ntrace(), isev(emitted(i), CacheModify) && evarg(emitted(i), CacheModify, 0) == CONFIG)
 //@   ensures error_after_store_failure [C07]: r1 == nil && ntrace() > n0 ==> ntrace() >= n0 + 2
 //@   ensures timer_only_on_success [C06 C05]: forall(i, n0, ntrace(), isev(emitted(i), TimerStart) ==> r1 == nil && i == ntrace() - 1 && !transaction.isRollback && emitted(i) == TimerStart(transaction.timer))
+//@   ensures started_iff_armed [C06]: transaction.timer != nil && old(transaction.timer.done) == nil ==>
+//@            (transaction.timer.done != nil) == (r1 == nil && ntrace() > n0 && emitted(ntrace() - 1) == TimerStart(transaction.timer))
 //@   ensures no_timer_for_rollback [C05]: transaction.isRollback ==> forall(i, n0, ntrace(), !isev(emitted(i), TimerStart))
 //@   ensures success_arms_timer [C06]: r1 == nil && ntrace() > n0 && !transaction.isRollback && transaction.timer != nil ==> emitted(ntrace() - 1) == TimerStart(transaction.timer)
 //@   ensures intended_writes_name_new_intents [C02 C07]: forall(i, n0 + 1, ntrace(), isev(emitted(i), CacheModify) && evarg(emitted(i), CacheModify, 0) == INTENDED ==>
 //@            present(transaction.newIntents, evarg(emitted(i), CacheModify, 1)) &&
 //@            evarg(emitted(i), CacheModify, 2) == transaction.newIntents[evarg(emitted(i), CacheModify, 1)].priority)
 //@   loop 0 invariant ntrace() == n0 && inv_Transaction(transaction)
-//@   loop 1 invariant ntrace() == n0 && inv_Transaction(transaction)
-//@   loop 2 invariant ntrace() == n0 && inv_Transaction(transaction)
-//@   loop 3 invariant inv_Transaction(transaction) && $map == transaction.newIntents && !dryRun
+//@   loop 1 invariant ntrace() == n0 && inv_Transaction(transaction) && vrOK(validationResult)
+//@   loop 2 invariant ntrace() == n0 && inv_Transaction(transaction) && vrOK(validationResult)
+//@   loop 3 invariant inv_Transaction(transaction) && $map == transaction.newIntents && !dryRun && !anyErrors(validationResult)
+//@   loop 3 invariant transaction.timer != nil ==> transaction.timer.done == old(transaction.timer.done)
+//@   loop 3 invariant callres(applyIntent, 0, 1) == nil
 //@   loop 3 invariant ntrace() >= n0 + 1 && isev(emitted(n0), SbiSet) && evarg(emitted(n0), SbiSet, 0)
 //@   loop 3 invariant forall(i, n0 + 1, ntrace(), isev(emitted(i), CacheModify) && evarg(emitted(i), CacheModify, 0) == INTENDED && evarg(emitted(i), CacheModify, 3) &&
 //@            present(transaction.newIntents, evarg(emitted(i), CacheModify, 1)) &&
 //@            evarg(emitted(i), CacheModify, 2) == transaction.newIntents[evarg(emitted(i), CacheModify, 1)].priority)
+
+// ---------------------------------------------------------------------------
+// C03: the replace intent is validated, applied and mirrored; a validation failure is an error without effects
+
+//@ func (*Datastore).replaceIntent
+//@   props C03
+//@   requires d != nil && d.config != nil && d.cacheClient != nil && transaction != nil && transaction.oldRunning != nil && transaction.replace != nil
+//@   nosafety the claims are about effect ordering; panics end the run without further effects (no-panic is property C20)
+//@   let n0 = ntrace()
+//@   internal invalid_replace_is_error_without_effect [C03]: called(Validate) && anyErrors(validationResult) ==> r1 != nil && ntrace() == n0
+//@   ensures dry_run_sends_nothing [C03]: dryRun ==> ntrace() == n0
+//@   ensures device_first: ntrace() > n0 ==> isev(emitted(n0), SbiSet)
+//@   ensures at_most_set_then_mirror: ntrace() <= n0 + 2 && (ntrace() == n0 + 2 ==> isev(emitted(n0+1), CacheModify) && evarg(emitted(n0+1), CacheModify, 0) == 0)
+//@   ensures rejected_by_device_is_error: ntrace() > n0 && !evarg(emitted(n0), SbiSet, 0) ==> r1 != nil && ntrace() == n0 + 1
+//@   ensures success_means_applied_and_mirrored: r1 == nil && !dryRun ==> ntrace() == n0 + 2 && evarg(emitted(n0), SbiSet, 0) && evarg(emitted(n0+1), CacheModify, 3)
+
+// ---------------------------------------------------------------------------
+// C06 / C03 / C07: one TransactionSet request
+
+//@ func (*Datastore).TransactionSet
+//@   props C06
+//@   requires d != nil && d.config != nil && d.cacheClient != nil && d.dmutex != nil && inv_TM(d.transactionManager)
+//@   requires package_initialised: ErrDatastoreLocked != nil && types.ErrTransactionOngoing != nil
+//@   requires forall(i, 0, len(transactionIntents), transactionIntents[i] != nil)
+//@   nosafety the claims are about the transaction slot and effect ordering (no-panic is property C20)
+//@   let n0 = ntrace()
+//@   let tm = d.transactionManager
+//@   ensures refused_while_open [C06]: old(tm.transaction) != nil ==> r1 != nil && tm.transaction == old(tm.transaction) && ntrace() == n0
+//@   ensures never_wedged [C06]: tm.transaction == old(tm.transaction) ||
+//@            (tm.transaction != nil && fresh(tm.transaction) && r1 == nil && ntrace() > n0 &&
+//@             emitted(ntrace()-1) == TimerStart(tm.transaction.timer))
+//@   ensures error_frees_slot [C06 C07]: r1 != nil ==> tm.transaction == old(tm.transaction)
+//@   ensures dry_run_sends_nothing [C03]: dryRun ==> ntrace() == n0
+//@   loop 0 invariant tm.transaction == old(tm.transaction) && ntrace() == n0
